@@ -123,6 +123,7 @@ class StorageBase(World):
         self.patch.set(lib.root_signing, "gpg_funcs", self.gpgstub)
         for mod in (lib.common, lib.metadata_construction, lib.cli):
             self.patch.set(mod, "open", self.fs.open)
+        self.fs.install_stat(self.patch)
 
     def close(self):
         self.patch.restore()
@@ -301,6 +302,121 @@ class StorageWorld(StorageBase):
         if not typed_eq(o.value, self.model[path]) or refcanon(o.value) != refcanon(self.model[path]):
             self.run.violate(("C08",), "load-differs", "loaded value differs from the value written (as JSON values / canonical bytes)",
                              "load-differs")
+
+    def op_load_edit_discard(self, op):
+        """A caller loads a file, edits the returned object in place (an abandoned draft, an unsaved signature) and drops
+        it.  The next load must again be the file's content: loading never hands out shared state."""
+        path = op["file"]
+        if path not in self.model:
+            return self.run.ev("noop")
+        lo = self.calls.raw("load_metadata_from_file", path)
+        if not lo.ok:
+            self.run.violate(("C08",), "load-failed", "load_metadata_from_file raised %r" % (lo,), "load-failed:" + lo.cls)
+            return
+        v = lo.value
+        if isinstance(v, dict):
+            v["__draft__"] = 1
+            if isinstance(v.get("signatures"), dict):
+                v["signatures"]["%064x" % 5] = {"signature": "%0128x" % 6}
+            if isinstance(v.get("signed"), dict):
+                v["signed"]["__draft__"] = True
+        elif isinstance(v, list):
+            v.append("__draft__")
+        else:
+            return self.run.ev("noop")
+        del lo, v
+        self.run.probe("draft_edited_and_discarded")
+        lo2 = self.calls.raw("load_metadata_from_file", path)
+        if not lo2.ok or not typed_eq(lo2.value, self.model[path]) or refcanon(lo2.value) != refcanon(self.model[path]):
+            self.run.violate(("C08", "C12"), "load-returns-shared-state",
+                             "after a caller edited (and discarded) a loaded value, loading the unchanged file again returns the edited value",
+                             "load-returns-shared-state")
+
+    def op_rewrite_same_size(self, op):
+        """Overwrite a file with a different value of exactly the same serialized size within the same simulated second
+        (a key swap, a single-digit version bump) and load it back."""
+        path = op["file"]
+        old = self.model.get(path)
+        if old is None:
+            return self.run.ev("noop")
+        new = copy.deepcopy(old)
+        cands = []
+        for p in gen.paths(new):
+            if not p:
+                continue
+            x = gen.get_path(new, p)
+            if type(x) is int and 0 <= x <= 8:
+                cands.append((p, x + 1))
+            elif type(x) is str and x and x[-1] in "abcdefghijklmnopqrstuvwxy012345678":
+                cands.append((p, x[:-1] + chr(ord(x[-1]) + 1)))
+        if not cands:
+            return self.run.ev("noop")
+        p, nv = cands[op.get("pick", 0) % len(cands)]
+        gen.set_path(new, list(p), nv)
+        if len(refcanon(new)) != len(refcanon(old)) or refcanon(new) == refcanon(old):
+            return self.run.ev("noop")
+        # make sure the library has seen the old content first
+        self.calls.raw("load_metadata_from_file", path)
+        t_before = int(self.fs.mtime.get(path, 0))
+        self.fs.tick = 0.0 if op.get("same_instant") else self.fs.tick
+        w = self.calls.raw("write_metadata_to_file", copy.deepcopy(new), path)
+        self.fs.tick = 0.3
+        if not w.ok:
+            self.run.violate(("C08",), "write-failed", "write_metadata_to_file raised %r" % (w,), "write-failed:" + w.cls)
+            return
+        self.model[path] = new
+        if int(self.fs.mtime.get(path, 0)) == t_before:
+            self.run.probe("same_size_same_second_rewrite")
+        lo = self.calls.raw("load_metadata_from_file", path)
+        if not lo.ok or not typed_eq(lo.value, new) or refcanon(lo.value) != refcanon(new):
+            self.run.violate(("C08", "C04"), "load-differs", "after rewriting a file with different content of the same size, loading it returns "
+                             "something other than what was written (stale?)", "load-differs")
+
+    def op_write_bad(self, op):
+        """A persist attempt that cannot succeed (a draft holding something JSON cannot express) must leave the stored,
+        signed file untouched - its trust status must not change."""
+        path = op["file"]
+        if path not in self.model:
+            return self.run.ev("noop")
+        before = self.fs.get(path)
+        bad = copy.deepcopy(self.model[path])
+        kind = op["bad"]
+        if isinstance(bad, dict) and isinstance(bad.get("signed"), dict):
+            holder = bad["signed"]
+        elif isinstance(bad, dict):
+            holder = bad
+        else:
+            bad = holder = {"value": bad}
+        if kind == "bytes":
+            holder["draft"] = b"raw-bytes"
+        elif kind == "set":
+            holder["draft"] = {1, 2}
+        elif kind == "mixedkeys":
+            holder["draft"] = {1: "a", "b": 2}
+        elif kind == "circular":
+            holder["draft"] = holder
+        elif kind == "keyobj":
+            holder["draft"] = self.keys.priv[0]
+        else:
+            deep = cur = []
+            for _ in range(100000):
+                nxt = []
+                cur.append(nxt)
+                cur = nxt
+            holder["draft"] = deep
+        o = self.calls.raw("write_metadata_to_file", bad, path)
+        self.run.fault("unserializable_draft_" + kind)
+        if o.ok:
+            self.run.violate(("C08",), "bad-value-written", "write_metadata_to_file accepted a value JSON cannot express (%s)" % kind, "bad-value-written")
+            self.model.pop(path, None)
+            return
+        if self.fs.get(path) != before:
+            self.run.violate(("C08", "C18"), "failed-write-changed-file",
+                             "a write that failed (%s: %s) changed the stored file (%d -> %d bytes): a validly signed file lost its trust status"
+                             % (kind, o.cls, len(before or b""), len(self.fs.get(path) or b"")), "failed-write-changed-file")
+            self.model.pop(path, None)
+        else:
+            self.run.probe("failed_write_left_file_intact")
 
     def op_cycle(self, op):
         path = op["file"]
@@ -752,7 +868,13 @@ class StorageWorld(StorageBase):
             if fault and fault["kind"] != "CRASH":
                 op["fault"] = fault
             return op
-        if r < 0.7:
+        if r < 0.64:
+            return {"op": "load_edit_discard", "file": f}
+        if r < 0.68:
+            return {"op": "rewrite_same_size", "file": f, "pick": rng.randint(0, 20), "same_instant": rng.random() < 0.5}
+        if r < 0.72:
+            return {"op": "write_bad", "file": f, "bad": rng.choice(["bytes", "set", "mixedkeys", "circular", "keyobj", "deep"])}
+        if r < 0.76:
             return {"op": "cycle", "file": f, "n": rng.randint(1, 3)}
         if r < 0.85:
             return {"op": "verdicts", "file": f}
